@@ -74,12 +74,13 @@ def gen_feature(rng, small):
         f["rings"] = [pts]
     else:
         holes = rng.choice([0, 0, 1, 2, 3])
-        big = rng.randrange(200, 1500)
-        cx, cy = rng.randrange(big + 5, 4090 - big), rng.randrange(big + 5, 4090 - big)
         if holes:
             n = rng.choice([8, 9, 12, 20]) if small else rng.choice([8, 16, 60, 300, 1000])
         else:
             n = rng.choice([3, 4, 5, 8, 13]) if small else rng.choice([3, 4, 7, 40, 500, 1000])
+        # radius large enough for n distinct integer vertices in strictly increasing angular order
+        big = max(rng.randrange(200, 1500), min(1499, int(n * 1.6)))
+        cx, cy = rng.randrange(big + 5, 4090 - big), rng.randrange(big + 5, 4090 - big)
         rings = [star(rng, cx, cy, 0.6 * big, big, n, rng.random() < 0.5)]
         for h in range(holes):
             a = 2 * math.pi * h / 3 + 0.4
